@@ -351,7 +351,7 @@ func init() {
 				{{K: "arr", Addr: 1, TI: 1}, {K: "map", Addr: 2, TI: 2}},
 			},
 			MaxBulk: 100, Keys: []int{12, 64, 300},
-			ValW:    valAll, MaxDepth: 2, MaxElems: 5, AcqW: [3]int{8, 1, 1},
+			ValW: valAll, MaxDepth: 2, MaxElems: 5, AcqW: [3]int{8, 1, 1},
 			CollLimits: []uint32{255},
 		})
 		g.DigRootsPct = 40
